@@ -43,6 +43,7 @@ type Config struct {
 	Real     []bool  // Real[i]: node i runs a real ConsensusState; otherwise the harness holds its key (Byzantine / puppet)
 	Dir      string  // scratch directory (signer files, WAL directories)
 	PartSize int
+	TxBytes  int // > 0: every generated transaction is padded to this many bytes (large blocks / large WAL records)
 	Label    string
 }
 
@@ -122,6 +123,7 @@ type MockPool struct {
 	node    int
 	counter int
 	TxsPer  int
+	TxBytes int
 	Extra   [][]byte // txs to include in the next proposal (e.g. validator changes)
 }
 
@@ -131,7 +133,11 @@ func (p *MockPool) Reap(n int) []types.Tx {
 	var out []types.Tx
 	for i := 0; i < p.TxsPer && len(out) < n; i++ {
 		p.counter++
-		out = append(out, types.Tx(fmt.Sprintf("tx-%d-%d", p.node, p.counter)))
+		tx := []byte(fmt.Sprintf("tx-%d-%d", p.node, p.counter))
+		for i := 0; len(tx) < p.TxBytes; i++ {
+			tx = append(tx, byte('a'+(i+p.counter)%26))
+		}
+		out = append(out, types.Tx(tx))
 	}
 	for _, e := range p.Extra {
 		out = append(out, types.Tx(e))
@@ -296,7 +302,7 @@ func NewNet(cfg Config) (*Net, error) {
 		nd.StateDB = NewDiskDB()
 		nd.BlockDB = NewDiskDB()
 		nd.App = &MockApp{AppHash: []byte{}}
-		nd.Pool = &MockPool{node: i, TxsPer: 2}
+		nd.Pool = &MockPool{node: i, TxsPer: 2, TxBytes: cfg.TxBytes}
 		pv, err := types.GenPrivValidator(crypto.CryptoTypeZhongAn, n.Keys[i])
 		if err != nil {
 			return nil, err
